@@ -64,6 +64,14 @@ func verifyFunction(w *World, fn *ssa.Function, con *Contract, props []string) (
 		}
 		x.Assumed["package invariants of "+shortPkg(pp)+" hold at entry (established by init: proved; preserved: frame lemma)"] = true
 	}
+	for _, pp := range sortedKeys(w.CFiles) {
+		cf := w.CFiles[pp]
+		for _, g := range cf.Grounds {
+			gfc := &frameCtx{pkgPath: pp, params: map[string]TV{}, env: map[ssa.Value]Val{}, entry: st}
+			x.Sc.Assert(x.evalBool(gfc, st, g, nil))
+			x.Assumed["ground-eval: "+g.String()+" (validated each run by executing the real function in replay/ground_test harness)"] = true
+		}
+	}
 	if isInit {
 		if g, ok := fn.Pkg.Members["init$guard"].(*ssa.Global); ok {
 			gp := x.globalPtr(g).(PtrV)
@@ -129,9 +137,20 @@ func verifyFunction(w *World, fn *ssa.Function, con *Contract, props []string) (
 
 func (x *Exec) obligeAt(s *State, cls, site string, pos interface{}, cond *Term) {
 	name := x.Prefix + "/" + cls + "/" + x.site(cls, site)
-	goal := tImp(s.Guard, cond)
-	x.Sc.AddObligation(&Obligation{Name: name, Class: cls, Props: x.Props, Goal: goal})
-	x.Sc.Assert(goal)
+	// top-level conjuncts become separate obligations (smaller queries, sharper failure reports)
+	parts := []*Term{cond}
+	if cond.op == "and" {
+		parts = cond.args
+	}
+	for i, c := range parts {
+		n := name
+		if len(parts) > 1 {
+			n = fmt.Sprintf("%s&%d", name, i)
+		}
+		goal := tImp(s.Guard, c)
+		x.Sc.AddObligation(&Obligation{Name: n, Class: cls, Props: x.Props, Goal: goal})
+		x.Sc.Assert(goal)
+	}
 }
 
 func (x *Exec) applyGhost(fc *frameCtx, st, old *State, g GhostUpdate) {
@@ -169,24 +188,16 @@ func (x *Exec) frameObligations(fc *frameCtx, rs, entry *State, con *Contract, r
 		if !ok || h1 == nil || h0 == nil || same(h0, h1) {
 			continue
 		}
-		if strings.HasPrefix(k, "C:") {
+		if strings.HasPrefix(k, "C:") || strings.HasPrefix(k, "G:ghost.") {
 			continue // local cells are never visible to the caller unless they escape (flagged elsewhere)
 		}
 		r := x.Sc.Fresh("frame_r", SInt)
 		conds := []*Term{tLt(r, entry.Alloc), tLe(mkInt(0), r)}
-		whole := false
-		for _, m := range mods {
-			if m.key == k {
-				if m.ref == nil {
-					whole = true
-				} else {
-					conds = append(conds, tNe(r, m.ref))
-				}
-			}
-		}
+		excl, whole := modExcl(mods, k, r)
 		if whole {
 			continue
 		}
+		conds = append(conds, excl...)
 		goal := tImp(tAnd(conds...), tEq(tSelect(h1, r), tSelect(h0, r)))
 		site := k
 		if len(fc.rets) > 1 {
